@@ -274,6 +274,9 @@ func parseTokens(ts []string) (string, []string, bool) {
 
 func gen(r0 *vh.Rand) string {
 	r := c1xroute.CaseRand(r0)
+	if r.Chance(1, 6) {
+		return genHist(r)
+	}
 	if r.Chance(1, 3) {
 		return genE(r)
 	}
@@ -325,6 +328,9 @@ func gen(r0 *vh.Rand) string {
 }
 
 func exec(op string) string {
+	if strings.HasPrefix(op, "hist;;") {
+		return execHist(op)
+	}
 	b, ok1 := c1xroute.KV(op, "b")
 	a, ok2 := c1xroute.KV(op, "a")
 	if cs, okc := c1xroute.KV(op, "c"); okc && !ok2 {
